@@ -20,6 +20,7 @@ import (
 	"context"
 	"fmt"
 	"reflect"
+	"sort"
 
 	"github.com/cloudwego/eino/components/document"
 	"github.com/cloudwego/eino/components/embedding"
@@ -466,7 +467,14 @@ func (wf *Workflow[I, O]) compile(ctx context.Context, options *graphCompileOpti
 	// applied: a later Compile must not push them again
 	wf.workflowBranches = nil
 
+	// the deferred inputs are replayed in a fixed (key) order: the inner graph types a pass-through node from the first
+	// edge it is shown and keeps the first error, so the outcome of Compile must not depend on map iteration order
+	nodes := make([]*WorkflowNode, 0, len(wf.workflowNodes))
 	for _, n := range wf.workflowNodes {
+		nodes = append(nodes, n)
+	}
+	sort.Slice(nodes, func(i, j int) bool { return nodes[i].key < nodes[j].key })
+	for _, n := range nodes {
 		for _, addInput := range n.addInputs {
 			if err := addInput(); err != nil {
 				return nil, err
